@@ -75,9 +75,17 @@ func ChooseRandomIndexN[S ~[]V, V any](slice S, n int) (result []int) {
 	if n > len(slice) || n < 0 {
 		panic(fmt.Errorf("inputN is greater than the length of the input or less than 0, inputN: %d, length: %d", n, len(slice)))
 	}
-	result = make([]int, n)
-	for i := 0; i < n; i++ {
-		result[i] = random.Int(0, len(slice)-1)
+	result = make([]int, 0, n)
+	if n == 0 {
+		return
+	}
+	// no repetition: draw from the set of indices, as ChooseRandomSliceElementN does
+	valid := ConvertSliceToIndexOnlyMap(slice)
+	for i := range valid {
+		result = append(result, i)
+		if len(result) == n {
+			break
+		}
 	}
 	return
 }
@@ -171,6 +179,9 @@ func ChooseRandomMapKeyN[M ~map[K]V, K comparable, V any](m M, n int) (result []
 		panic(fmt.Errorf("inputN is greater than the length of the map or less than 0, inputN: %d, length: %d", n, len(m)))
 	}
 	result = make([]K, n)
+	if n == 0 {
+		return
+	}
 	i := 0
 	for k := range m {
 		result[i] = k
@@ -192,6 +203,9 @@ func ChooseRandomMapValueN[M ~map[K]V, K comparable, V any](m M, n int) (result 
 		panic(fmt.Errorf("inputN is greater than the length of the map or less than 0, inputN: %d, length: %d", n, len(m)))
 	}
 	result = make([]V, n)
+	if n == 0 {
+		return
+	}
 	i := 0
 	for _, v := range m {
 		result[i] = v
@@ -224,6 +238,9 @@ func ChooseRandomMapKeyAndValueN[M ~map[K]V, K comparable, V any](m M, n int) M 
 		panic(fmt.Errorf("inputN is greater than the length of the map or less than 0, inputN: %d, length: %d", n, len(m)))
 	}
 	result := make(M, n)
+	if n == 0 {
+		return result
+	}
 	i := 0
 	for k, v := range m {
 		result[k] = v
